@@ -147,6 +147,14 @@ func (r *Run) Fail(class, witness string) {
 	}
 }
 
+// Stop reports that enough unclassified failures were seen; generators
+// should stop early (a broken implementation can make every case slow).
+func (r *Run) Stop() bool {
+	r.mu.Lock()
+	defer r.mu.Unlock()
+	return r.Fails >= 8
+}
+
 // KnownSeen reports that a listed finding's witness still reproduces.
 func (r *Run) KnownSeen(id, what string) {
 	r.mu.Lock()
